@@ -15,9 +15,9 @@ import (
 
 type c09RunFacts struct {
 	Contract, AbiName string
-	RunSeq            []string   // top-level statements of Run in source order
-	OuterWritesBefore int        // keeper calls that are not reads, on an outer ctx (stateDB.Context()), before the native action
-	OuterWritesAfter  int        // … after it (or anywhere, when there is no native action)
+	RunSeq            []string // top-level statements of Run in source order
+	OuterWritesBefore int      // keeper calls that are not reads, on an outer ctx (stateDB.Context()), before the native action
+	OuterWritesAfter  int      // … after it (or anywhere, when there is no native action)
 	OuterReads        int
 	NativeStmts       int        // statements containing ExecuteNativeAction
 	Recovers          int        // recover() calls anywhere in Run (deferred function literals included)
